@@ -263,10 +263,10 @@ def zip_program(h, o1, o2, rng, allow_add=True, p_fail=0.0):
             s2.xs[pos - 1] = s2.norm(v2)
 
 
-def zip_same_program(h, o, rng):
-    """a zip iterator with the SAME array on both sides (ar1 == ar2): every call acts twice on one array.
-    No fail= on zit_add here: when the second add_at has to grow the array and is refused the library
-    returns CC_OK with one element inserted (corpus/array_sized/defect_zip_add_same_array_refused.ops)."""
+def zip_same_program(h, o, rng, p_fail=0.0):
+    """a zip iterator with the SAME array on both sides (ar1 == ar2): every call acts twice on one array
+    (a refused growth inside the second add_at used to be swallowed: repaired as A11,
+    corpus/array_sized/zip_add_same_array_refused.ops)."""
     s = h.sh[o]
     h.ops.append(f"zit_new o={o} o2={o}")
     pos = 0
@@ -288,7 +288,7 @@ def zip_same_program(h, o, rng):
                 h.ops.append("zit_remove")
         elif r < 0.5:
             v1, v2 = h.val(), h.val()
-            h.ops.append(f"zit_add {v1} {v2}")
+            h.ops.append(f"zit_add {v1} {v2}" + (f" fail={rng.choice([1, 1, 2])}" if rng.random() < p_fail else ""))
             s.xs.insert(pos, s.norm(v1))
             s.xs.insert(pos, s.norm(v2))
             pos += 1
@@ -427,8 +427,12 @@ class ArraySizedGen:
                                 ops += ["zit_new o=0 o2=0", "zit_index", "zit_next"] + ([a1, "zit_index"] if a1 else [])
                                 ops += ["zit_next"] + ([a2, "zit_index"] if a2 else []) + ["zit_next", "foreach_zip o=0 o2=0", "capacity", "destroy"]
                                 out.append(ops)
-        # refusals on the growth check of an aliased zit_add (clean CC_ERR_ALLOC: the array is full and the
-        # growth leaves at least two free slots, so the two add_at calls do not allocate)
+        # refusals on an aliased zit_add: in the growth pre-check and inside the second add_at (A11)
+        for cap, n, ex in ((1, 1, "2"), (2, 1, "2"), (2, 2, "1.5"), (3, 2, "2"), (3, 3, "1.1")):
+            for k in (1, 2):
+                out.append([f"new esize=3 cap={cap} exp={ex}"] + [f"add {i + 1}" for i in range(n)] +
+                           ["zit_new o=0 o2=0", "zit_next", f"zit_add 8 9 fail={k}", "zit_index", "zit_next", "zit_add 8 9", "zit_next",
+                            "foreach_zip o=0 o2=0", "destroy"])
         out.append(["new esize=2 cap=1 exp=3", "add 1", "zit_new o=0 o2=0", "zit_next", "zit_add 8 9 fail=1", "zit_next", "zit_add 8 9", "zit_next", "destroy"])
         out.append(["new esize=2 cap=2 exp=2", "add 1", "add 2", "zit_new o=0 o2=0", "zit_next", "zit_add 8 9 fail=1", "zit_add 8 9", "zit_next", "destroy"])
         return out
@@ -527,6 +531,8 @@ class ArraySizedGen:
             ["new esize=17 cap=2 exp=1.1", "add 1", "add 2", "remove_all", "trim_capacity", "add 3", "add 4", "add 5", "destroy"],
             ["new esize=2 cap=1 exp=2", "new o=1 esize=3 cap=2 exp=2", "add 1", "add 11 o=1", "add 12 o=1", "zit_new o=0 o2=1",
              "zit_next", "zit_add 7 17", "zit_next", "zit_index", "zit_add 8 18", "zit_next", "foreach_zip o=0 o2=1", "destroy"],
+            ["new esize=3 cap=2 exp=2", "add 1", "zit_new o=0 o2=0", "zit_next", "zit_add 5 6", "zit_next", "zit_add 7 8", "zit_remove",
+             "zit_next", "foreach_zip o=0 o2=0", "destroy"],
         ]
 
     # ------------------------------------------------------------------ random
@@ -562,7 +568,7 @@ class ArraySizedGen:
         p_der = {"derived": 0.15, "all": 0.05, "fault": 0.15}.get(focus, 0)
         p_sort = {"sort": 0.2, "all": 0.04}.get(focus, 0)
         p_fail = {"all": 0.05}.get(focus, 0)
-        p_zsame = {"iter": 0.04, "growth": 0.02, "all": 0.02}.get(focus, 0)
+        p_zsame = {"iter": 0.04, "growth": 0.02, "all": 0.02, "fault": 0.04}.get(focus, 0)
         allow_it_add = True
         i = 0
         while i < length:
@@ -573,7 +579,7 @@ class ArraySizedGen:
                 o = live[0]
             r = rng.random()
             if rng.random() < p_zsame:
-                zip_same_program(h, o, rng)
+                zip_same_program(h, o, rng, p_fail=4 * p_fail)
                 continue
             if r < p_iter:
                 iter_program(h, o, rng, allow_it_add, p_fail=4 * p_fail)
